@@ -684,6 +684,10 @@ def if_calls_rule(run, quick):
             x = rng.choice(XS)
             if kind == "ifeq":
                 y = rng.choice([x, " " + x + " ", x.strip()]) if rng.random() < 0.4 else rng.choice(XS)
+                if rng.random() < 0.35:
+                    # calls in the operands (c04_ifeq_with_calls_in_its_operands): compared after expansion
+                    x = rng.choice(["", " "]) + inner() + rng.choice(["", " "])
+                    y = rng.choice([x, inner(), rng.choice(XS)])
                 page = "{{#ifeq:" + "|".join([x, y] + [branch() for _ in range(rng.randint(0, 3))]) + "}}"
             else:
                 page = "{{#switch:" + "|".join([x] + [rng.choice(KEYS) + "=" + branch() for _ in range(rng.randint(0, 4))]) + "}}"
@@ -697,7 +701,7 @@ def if_calls_rule(run, quick):
                 run.property_failure("%scalls:%s:%s" % (kind, r.get("outcome"), r.get("exc", "")), "expand() did not return normally: %r" % (r,), c)
                 continue
             pa = r["page_ast"]
-            if len(pa) != 1 or isinstance(pa[0], int) or pa[0][0] != "T" or any(not isinstance(y, int) for y in pa[0][1][0]) \
+            if len(pa) != 1 or isinstance(pa[0], int) or pa[0][0] != "T" or (kind == "switch" and any(not isinstance(y, int) for y in pa[0][1][0])) \
                     or pa[0][1][0][:len(head)] != head or (kind == "switch" and any(61 not in a for a in pa[0][1][1:])):
                 run.correspondence_break("a generated #%s call was not read as one call (with keyed cases)" % kind, c, page_ast=pa)
                 continue
@@ -706,11 +710,11 @@ def if_calls_rule(run, quick):
                 second = clist(more, G.coq_enc, "enc")
             else:
                 second = clist(more, lambda a: "(%s, %s)" % (G.coq_enc(a[:a.index(61)]), G.coq_enc(a[a.index(61) + 1:])), "enc * enc")
-            coq_cases.append("(%s, %s, %s, %s)" % (G.coq_lib([[t[0], t[1], t[2]] for t in r["lib_ast"]]), G.coq_enc(pa[0][1][0][len(head):]),
+            coq_cases.append("(%s, %s, %s, %s)" % (G.coq_lib([[t[0], t[1], t[2]] for t in r["lib_ast"]]), G.coq_enc(norm(pa[0][1][0][len(head):])),
                                                    second, cstr(r["out"])))
             idx.append(i)
         if kind == "ifeq":
-            ty, okfn, resfn = "list tpl * enc * list enc * str", "ifeq_calls_ok parser_functions l c m", "ifeq_calls_result l c m"
+            ty, okfn, resfn = "list tpl * enc * list enc * str", "ifeq_full_ok parser_functions l c m", "ifeq_full_result l c m"
         else:
             ty, okfn = "list tpl * enc * list (enc * enc) * str", "plain c && forallb (case_calls_ok parser_functions l) m"
             resfn = "add_newline (switch_calls_result l (strip_i c) m None)"
